@@ -81,7 +81,7 @@ MaxOf(S)         == IF S = {} THEN 0 ELSE CHOOSE m \in S : \A y \in S : y <= m
 IndexOf(s, e)    == CHOOSE i \in 1..Len(s) : s[i] = e /\ \A j \in 1..(i - 1) : s[j] # e
 Concat(ss)       == FoldLeft(LAMBDA acc, t : acc \o t, <<>>, ss)
 
-Call(op) == [op |-> op, id |-> 0, x |-> 0, name |-> "", b |-> <<>>, o |-> NullO, nums |-> <<>>, fmt |-> ""]
+Call(op) == [op |-> op, id |-> 0, x |-> 0, name |-> "", b |-> <<>>, o |-> NullO, nums |-> <<>>, fmt |-> "", ops |-> <<>>]
 ResOk(id)  == [ok |-> TRUE, id |-> id, ids |-> <<>>]
 ResErr     == [ok |-> FALSE, id |-> 0, ids |-> <<>>]
 
@@ -183,8 +183,18 @@ ContentIds(objs, p) ==
 
 StreamBytes(objs, id) == LET o == GetObj(objs, id) IN IF o.k = "stream" THEN o.c ELSE <<>>
 
-\* a page's decoded content
-Content(objs, p) == FoldLeft(LAMBDA acc, id : acc \o StreamBytes(objs, id), <<>>, ContentIds(objs, p))
+\* a page's decoded content: the data of its content streams, each followed by a newline (the division between
+\* streams is a token boundary, 7.8.2: the last token of one stream and the first of the next stay apart;
+\* this is also what get_page_content returns)
+IsStream(objs, id) == GetObj(objs, id).k = "stream"
+Content(objs, p) ==
+    FoldLeft(LAMBDA acc, id : IF IsStream(objs, id) THEN acc \o StreamBytes(objs, id) \o <<10>> ELSE acc, <<>>, ContentIds(objs, p))
+\* ... and the plain concatenation (how get_page_content joined the streams before fix 1ec5ee7)
+PlainContent(objs, p) == FoldLeft(LAMBDA acc, id : acc \o StreamBytes(objs, id), <<>>, ContentIds(objs, p))
+\* the data of the page's last content stream
+LastStreamBytes(objs, p) ==
+    LET ids == SelectSeq(ContentIds(objs, p), LAMBDA id : IsStream(objs, id)) IN
+    IF ids = <<>> THEN <<>> ELSE StreamBytes(objs, ids[Len(ids)])
 
 \* shape of a page's Contents entry
 ContentsShape(objs, p) ==
@@ -194,6 +204,47 @@ ContentsShape(objs, p) ==
        ELSE IF c.k = "arr" THEN "array"
        ELSE IF c.k = "ref" THEN (IF Target(objs, c).k = "arr" THEN "refToArray" ELSE "ref")
        ELSE "other"
+
+\* ---- page content as a sequence of operations -----------------------------------------------
+\* An operation is a TOKEN: the byte string "operand ... operand operator" (what Content::encode
+\* writes for that one operation).  The operation sequence of a page is an OBSERVATION: the harness
+\* logs Content::decode(get_page_content(page)) token by token; in the model world (MC_Editing), where
+\* streams hold lines of the small alphabet {letters, digits, /, space, newline}, DecodeM / EncodeM
+\* mirror lopdf's Content::decode / Content::encode on that alphabet.  Undec = "does not decode".
+Undec   == << <<0>> >>
+Partial == << <<0, 1>> >>        \* the decoder reads only part of the bytes (malformed content): no clause on operations
+WSpace  == {0, 9, 10, 12, 13, 32}
+IsLetter(b) == b \in 65..90 \/ b \in 97..122
+RECURSIVE Digits(_)
+Digits(n) == IF n < 10 THEN <<48 + n>> ELSE Digits(n \div 10) \o <<48 + (n % 10)>>
+JoinWith(ss, sep) ==
+    FoldLeft(LAMBDA acc, i : IF i = 1 THEN ss[1] ELSE acc \o <<sep>> \o ss[i], <<>>, [i \in 1..Len(ss) |-> i])
+SplitWords(c) ==
+    LET r == FoldLeft(LAMBDA acc, b : IF b \in WSpace
+                                       THEN (IF acc.cur = <<>> THEN acc ELSE [ws |-> Append(acc.ws, acc.cur), cur |-> <<>>])
+                                       ELSE [acc EXCEPT !.cur = Append(@, b)],
+                      [ws |-> <<>>, cur |-> <<>>], c)
+    IN IF r.cur = <<>> THEN r.ws ELSE Append(r.ws, r.cur)
+\* an inline-image operator without its data is the content that lopdf refuses to decode
+DecodeM(c) ==
+    LET ws == SplitWords(c) IN
+    IF \E i \in 1..Len(ws) : ws[i] = <<66, 73>> THEN Undec
+    ELSE FoldLeft(LAMBDA acc, w : IF IsLetter(w[1])
+                                  THEN [ops |-> Append(acc.ops, JoinWith(Append(acc.args, w), 32)), args |-> <<>>]
+                                  ELSE [acc EXCEPT !.args = Append(@, w)],
+                  [ops |-> <<>>, args |-> <<>>], ws).ops
+EncodeM(ops) == JoinWith(ops, 10)             \* operations joined by newlines, no trailing newline
+
+TokSave    == <<113>>                                                      \* q
+TokRestore == <<81>>                                                       \* Q
+TokDo(nameBytes) == <<47>> \o nameBytes \o <<32, 68, 111>>                 \* /Name Do
+TokCm(nums) ==                                                             \* sx 0 0 sy px py cm
+    IF Len(nums) # 4 THEN <<0>>
+    ELSE Digits(nums[1]) \o <<32, 48, 32, 48, 32>> \o Digits(nums[2]) \o <<32>> \o Digits(nums[3]) \o <<32>>
+         \o Digits(nums[4]) \o <<32, 99, 109>>
+\* the name insert_image / insert_form_object derive from an object number: as dictionary key and as bytes
+XName(n) == [s |-> "X" \o ToString(n), b |-> <<88>> \o Digits(n)]
+NoName   == [s |-> "", b |-> <<>>]
 
 \* the objects that make up a page's Contents: the object behind a Contents reference and the streams
 ContentChain(objs, p) ==
@@ -270,7 +321,10 @@ DeletedBy(A, c) ==
 IsDeletion(c) == c.op \in {"DeleteObject", "DeletePages"}
 IsResourceEdit(c) == c.op \in {"GetOrCreateResources", "AddXObject", "AddGraphicsState"}
 CatOf(c) == IF c.op = "AddXObject" THEN "XObject" ELSE IF c.op = "AddGraphicsState" THEN "ExtGState" ELSE ""
-Allocating == {"NewObjectId", "AddObject", "AddPageContents", "ChangePageContent", "BuildOutline"}
+IsInsert(c)  == c.op \in {"InsertImage", "InsertFormObject"}                  \* parser_aux.rs: new XObject drawn on a page
+IsOpsEdit(c) == c.op \in {"AddToPageContent", "InsertImage", "InsertFormObject"}   \* edits stated on operation sequences
+Allocating == {"NewObjectId", "AddObject", "AddPageContents", "ChangePageContent", "BuildOutline",
+               "AddToPageContent", "InsertImage", "InsertFormObject"}
 Rekeying   == {"Renumber", "SaveLoad"}          \* every identifier may change / a new Document value
 
 \* The objects of the pre-state a call is documented to write (how "no operation other than an
@@ -282,8 +336,10 @@ WriteSet(pre, A, c) ==
       [] c.op = "DeletePages"         -> LET X == DeletedPages(A.pp, c.nums) IN
                                          X \cup Holders(pre, X) \cup UNION {Ancestors(pre.objs, p) : p \in X}
       [] c.op = "RemoveAnnot"         -> RangeOf(A.pp)
-      [] c.op = "AddPageContents"     -> {c.id}
+      [] c.op \in {"AddPageContents", "AddToPageContent"} -> {c.id}
       [] c.op = "ChangePageContent"   -> {c.id} \cup RangeOf(ContentIds(pre.objs, c.id))
+      \* the page, its content streams and the objects behind its OWN Resources entry
+      [] IsInsert(c)                  -> {c.id} \cup RangeOf(ContentIds(pre.objs, c.id)) \cup OwnResObjs(pre.objs, c.id)
       [] c.op = "ChangeContentStream" -> {c.id}
       [] IsResourceEdit(c)            -> {c.id} \cup OwnResObjs(pre.objs, c.id)
       [] c.op \in Rekeying            -> DOMAIN pre.objs
@@ -339,8 +395,9 @@ StaleTags(pre, post, reachPost, X) ==
 (* Ghost state: what the history of calls implies *)
 (*   issued  : identifiers handed out by new_object_id and not yet used           *)
 (*   content : page id -> the bytes the sequence of content edits implies           *)
+(*   ops     : page id -> the operation sequence the page showed (observed)         *)
 
-GhostOf(A) == [issued |-> {}, content |-> A.content]
+GhostOf(A, ops) == [issued |-> {}, content |-> A.content, ops |-> ops]
 
 \* the content every page of the post-state must show (A = Aux(pre), B = Aux(post))
 ExpContent(pre, A, gh, c, res, B) ==
@@ -350,23 +407,29 @@ ExpContent(pre, A, gh, c, res, B) ==
         redo(objs2) == [p \in pages |-> IF p \in DOMAIN pre.objs /\ c.id \in ContentChain(pre.objs, p)
                                         THEN Content(objs2, p) ELSE old(p)]
     IN
-    CASE c.op = "AddPageContents"     -> [p \in pages |-> IF p = c.id /\ res.ok THEN old(p) \o c.b ELSE old(p)]
-      [] c.op = "ChangePageContent"   -> [p \in pages |-> IF p = c.id /\ res.ok THEN c.b ELSE old(p)]
+    CASE c.op = "AddPageContents"     -> [p \in pages |-> IF p = c.id /\ res.ok THEN old(p) \o c.b \o <<10>> ELSE old(p)]
+      [] c.op = "ChangePageContent"   -> [p \in pages |-> IF p = c.id /\ res.ok THEN c.b \o <<10>> ELSE old(p)]
       [] c.op = "ChangeContentStream" ->
             LET o == IF c.id \in DOMAIN pre.objs THEN pre.objs[c.id] ELSE None
             IN IF o.k = "stream" THEN redo(Put(pre.objs, c.id, [o EXCEPT !.c = c.b])) ELSE [p \in pages |-> old(p)]
       [] c.op = "DeleteObject"        -> redo(Without(pre.objs, {c.id}))
       [] c.op = "Replace"             -> redo(Put(pre.objs, c.id, c.o))
       [] c.op = "Renumber"            -> [p \in pages |-> IF Len(A.pp) = Len(B.pp) THEN old(A.pp[IndexOf(B.pp, p)]) ELSE <<>>]
+      \* edits stated on operation sequences: the bytes of the edited page are free (the operation
+      \* clause below decides), unless the call reports an error; every other page keeps its bytes
+      [] IsOpsEdit(c)                 -> [p \in pages |-> IF p = c.id /\ res.ok THEN B.content[p] ELSE old(p)]
       [] OTHER                        -> [p \in pages |-> old(p)]
 
 -----------------------------------------------------------------------------
 (* The judge: which clauses does the observed step pre --call/res--> post violate? *)
-(* A = Aux(pre), B = Aux(post).  Tags in DriftTags are not violations of the         *)
+(* A = Aux(pre), B = Aux(post), O1 = what was observed of post through decoding:      *)
+(*   [ops |-> page id -> operation sequence of the page (Undec: does not decode),      *)
+(*    xn  |-> the name under which an insert_* call registered its new object]         *)
+(* Tags in DriftTags are not violations of the                                         *)
 (* statement (they say that something outside its wording changed); every other tag  *)
 (* is a violation signature.                                                          *)
 
-Judge(pre, A, gh, c, res, post, B) ==
+Judge(pre, A, gh, c, res, post, B, O1) ==
     LET reach    == A.reach
         ws       == WriteSet(pre, A, c)
         newIds   == DOMAIN post.objs \ DOMAIN pre.objs
@@ -403,7 +466,34 @@ Judge(pre, A, gh, c, res, post, B) ==
         content  == IF badp = {} THEN {}
                     ELSE IF c.op \in {"AddPageContents", "ChangePageContent"} /\ badp = {c.id}
                             /\ ContentsShape(pre.objs, c.id) = "refToArray"
-                         THEN {"contents.refToArray"} ELSE {"content"}
+                         THEN {"contents.refToArray"}
+                    \* an edit of ONE page's content shows on other pages: exactly those that share a
+                    \* content stream (or Contents array object) with the edited page
+                    ELSE IF (c.op = "ChangePageContent" \/ IsInsert(c)) /\ c.id \notin badp /\ c.id \in DOMAIN pre.objs
+                            /\ \A q \in badp : q \in DOMAIN pre.objs
+                                   /\ ContentChain(pre.objs, q) \cap ContentChain(pre.objs, c.id) # {}
+                         THEN {"content.sharedStream"}
+                    ELSE {"content"}
+        \* ---- ContentOk on operation sequences (add_to_page_content, insert_image, insert_form_object)
+        oldOps   == IF c.id \in DOMAIN gh.ops THEN gh.ops[c.id] ELSE Undec
+        newOps   == IF c.id \in DOMAIN O1.ops THEN O1.ops[c.id] ELSE Undec
+        expOps   == CASE c.op = "AddToPageContent" -> oldOps \o c.ops
+                      [] c.op = "InsertImage"      -> oldOps \o <<TokSave, TokCm(c.nums), TokDo(O1.xn.b), TokRestore>>
+                      [] c.op = "InsertFormObject" -> <<TokSave>> \o oldOps \o <<TokRestore, TokDo(O1.xn.b)>>
+                      [] OTHER                     -> oldOps
+        \* (domain of the insert_* clauses: the Resources entry in effect for the page is a dictionary or absent)
+        resDom   == ~IsInsert(c) \/ EffRes(pre.objs, c.id).k \in {"dict", "none"}
+        opsTag   == IF IsOpsEdit(c) /\ res.ok /\ resDom /\ c.id \in RangeOf(pp1) /\ oldOps \notin {Undec, Partial}
+                       /\ newOps # expOps
+                    THEN LET b0 == LastStreamBytes(pre.objs, c.id) IN
+                         \* the old content's last stream ends without white space and the appended stream's first
+                         \* token was read together with its last one
+                         IF ContentsShape(pre.objs, c.id) = "refToArray" /\ newOps # expOps
+                            /\ (c.op = "AddToPageContent" => newOps = c.ops)
+                         THEN {"contents.refToArray"}             \* (former finding: the old streams are no longer read)
+                         ELSE IF c.op = "AddToPageContent" /\ b0 # <<>> /\ b0[Len(b0)] \notin WSpace
+                         THEN {"content.streamBoundary"} ELSE {"content.ops"}
+                    ELSE {}
         \* ---- ResMonotone
         lost     == IF IsResourceEdit(c)
                     THEN LET after == ResTriples(post.objs, c.id) IN
@@ -413,6 +503,22 @@ Judge(pre, A, gh, c, res, post, B) ==
                     ELSE LET p0 == GetObj(pre.objs, c.id) p1 == GetObj(post.objs, c.id) IN
                          IF p0.k = "dict" /\ p1.k = "dict" /\ ~Has(p0.v, "Resources") /\ Has(p1.v, "Resources")
                          THEN {"resources.shadow"} ELSE {"resmono"}
+        \* insert_image / insert_form_object choose the resource name themselves: NOTHING any page could
+        \* use before may be taken away, also not an entry that already has the chosen name
+        lostAt(q) == LET after == ResTriples(post.objs, q) IN {t \in ResTriples(pre.objs, q) : t \notin after}
+        lostIns  == IF IsInsert(c) THEN [q \in RangeOf(pp0) \cap RangeOf(pp1) |-> lostAt(q)] ELSE <<>>
+        insmono  == LET all == UNION {lostIns[q] : q \in DOMAIN lostIns} IN
+                    IF all = {} THEN {}
+                    ELSE IF O1.xn.s # "" /\ \A t \in all : t[1] = "XObject" /\ t[2] = O1.xn.s
+                         THEN {"resources.nameCollision"}
+                    ELSE (IF c.id \in DOMAIN lostIns /\ lostIns[c.id] # {}
+                          THEN LET p0 == GetObj(pre.objs, c.id) p1 == GetObj(post.objs, c.id) IN
+                               IF p0.k = "dict" /\ p1.k = "dict" /\ ~Has(p0.v, "Resources") /\ Has(p1.v, "Resources")
+                               THEN {"resources.shadow"} ELSE {"resmono"}
+                          ELSE {})
+                         \cup (IF \E q \in DOMAIN lostIns \ {c.id} : lostIns[q] # {} THEN {"resmono.other"} ELSE {})
+        \* the objects the call stored as given (the image / form stream)
+        xids     == {id \in newIds : post.objs[id] = c.o}
         \* ---- the post-state the abstract model prescribes for the call
         eff(b)   == IF b THEN {} ELSE {"effect." \o c.op}
         effect   ==
@@ -441,7 +547,12 @@ Judge(pre, A, gh, c, res, post, B) ==
               [] c.op \in {"Compress", "Decompress", "Save"} -> eff(newIds = {} /\ goneIds = {} /\ res.ok)
               [] c.op = "SaveLoad"    ->
                     IF res.ok /\ post.objs = pre.objs /\ post.trailer = pre.trailer THEN {} ELSE {"drift.load"}
-              [] c.op = "AddPageContents" -> eff(goneIds = {} /\ Cardinality(newIds) <= 1)
+              [] c.op \in {"AddPageContents", "AddToPageContent"} -> eff(goneIds = {} /\ Cardinality(newIds) <= 1)
+              \* the stream is stored under a fresh id; on success the page can use it as XObject O1.xn
+              [] IsInsert(c) ->
+                    eff(goneIds = {} /\ Cardinality(newIds) <= 2
+                        /\ (res.ok /\ resDom => xids # {} /\ O1.xn.s # ""
+                                       /\ \E id \in xids : <<"XObject", O1.xn.s, Ref(id)>> \in ResTriples(post.objs, c.id)))
               [] c.op = "ChangePageContent" -> eff(goneIds = {} /\ Cardinality(newIds) <= 1)
               [] c.op = "ChangeContentStream" ->
                     eff(newIds = {} /\ goneIds = {}
@@ -458,12 +569,12 @@ Judge(pre, A, gh, c, res, post, B) ==
                         /\ IF pre.bms = <<>> THEN newIds = {} /\ res.id = 0
                            ELSE res.id \in newIds /\ Cardinality(newIds) = 1 + 2 * Len(pre.bms))
               [] OTHER -> {"effect.unknown"}
-        tags     == fresh \cup frame \cup unreach \cup stale \cup prune \cup counts \cup maxid \cup content
-                    \cup resmono \cup effect
+        tags     == fresh \cup frame \cup unreach \cup stale \cup prune \cup counts \cup maxid \cup content \cup opsTag
+                    \cup resmono \cup insmono \cup effect
     IN [tags |-> tags,
         \* the next ghost state; content is re-synchronised to what the document shows so that one
         \* reported mismatch is reported once
-        gh   |-> [issued |-> issued1, content |-> B.content],
+        gh   |-> [issued |-> issued1, content |-> B.content, ops |-> O1.ops],
         exp  |-> exp]
 
 \* state clauses alone (for a starting document and its declared content); A = Aux(d)
@@ -487,9 +598,24 @@ Violations(tags) == tags \ DriftTags
 (* compared with lopdf's), DevSeeded = the five repaired defects seeded back (a negative control of the *)
 (* declarative layer: its violations must be exactly the five former findings).                        *)
 
-DevAsIs     == [asis |-> TRUE, dup |-> FALSE, sdict |-> FALSE, trailer |-> FALSE, shadow |-> FALSE, refarr |-> FALSE]
-DevSeeded   == [asis |-> FALSE, dup |-> TRUE, sdict |-> TRUE, trailer |-> TRUE, shadow |-> TRUE, refarr |-> TRUE]
-FormerFindings == {"delete.array.dup", "delete.streamdict", "delete.trailer", "resources.shadow", "contents.refToArray"}
+(* Three further switches re-create deviations that are confirmed and still in the code (known findings):*)
+(*   shared   change_page_content rewrites a content stream in place although another page uses it too   *)
+(*   collide  insert_image / insert_form_object name the new XObject X<object number> without looking    *)
+(*            whether the page can already use a resource of that name                                   *)
+(* and one more that was a finding of the operation-level clauses and is repaired (fix: 1ec5ee7):        *)
+(*   boundary get_page_content joined a page's content streams without white space, so the last operator *)
+(*            of one stream and the first token of the next were decoded as one token (the model world's  *)
+(*            observation ObserveM decodes the plain concatenation when the switch is TRUE)              *)
+(* DevRepaired = everything repaired (mode "repaired": no violation at all).                             *)
+
+DevAsIs     == [asis |-> TRUE, mode |-> "asis", dup |-> FALSE, sdict |-> FALSE, trailer |-> FALSE, shadow |-> FALSE,
+                refarr |-> FALSE, shared |-> TRUE, collide |-> TRUE, boundary |-> FALSE]
+DevSeeded   == [asis |-> FALSE, mode |-> "seeded", dup |-> TRUE, sdict |-> TRUE, trailer |-> TRUE, shadow |-> TRUE,
+                refarr |-> TRUE, shared |-> TRUE, collide |-> TRUE, boundary |-> TRUE]
+DevRepaired == [asis |-> FALSE, mode |-> "repaired", dup |-> FALSE, sdict |-> FALSE, trailer |-> FALSE, shadow |-> FALSE,
+                refarr |-> FALSE, shared |-> FALSE, collide |-> FALSE, boundary |-> FALSE]
+FormerFindings == {"delete.array.dup", "delete.streamdict", "delete.trailer", "resources.shadow", "contents.refToArray",
+                   "content.streamBoundary"}
 
 Out(d, res) == [doc |-> d, res |-> res]
 
@@ -610,15 +736,19 @@ ImplChangePageContent(d, p, b, dev) ==
         c  == IF pg.k = "dict" THEN Get(pg.v, "Contents") ELSE None
         \* as repaired, a reference to an array is read as that array
         c1 == IF ~dev.refarr /\ c.k = "ref" /\ Target(d.objs, c).k = "arr" THEN Target(d.objs, c) ELSE c
+        \* as repaired, a stream that another page uses too is not rewritten in place
+        inPlace(sid) == dev.shared \/ ~\E q \in PageSet(d) \ {p} : sid \in RangeOf(ContentIds(d.objs, q))
+        fresh == LET new == d.max_id + 1
+                     d1  == [d EXCEPT !.max_id = new, !.objs = Put(@, new, NewStream(b))]
+                     s   == PageSlot(d1, p)
+                 IN Out([d1 EXCEPT !.objs = Put(@, s, DictO(Put(d1.objs[s].v, "Contents", Ref(new))))], ResOk(0))
     IN IF c.k = "none" THEN Out(d, ResErr)
-       ELSE IF c1.k = "ref" THEN Out(ChangeStream(d, c1.n, b), ResOk(0))
+       ELSE IF c1.k = "ref" THEN (IF inPlace(c1.n) THEN Out(ChangeStream(d, c1.n, b), ResOk(0)) ELSE fresh)
        ELSE IF c1.k = "arr"
             THEN IF Len(c1.v) = 1
-                 THEN Out(IF c1.v[1].k = "ref" THEN ChangeStream(d, c1.v[1].n, b) ELSE d, ResOk(0))
-                 ELSE LET new == d.max_id + 1
-                          d1  == [d EXCEPT !.max_id = new, !.objs = Put(@, new, NewStream(b))]
-                          s   == PageSlot(d1, p)
-                      IN Out([d1 EXCEPT !.objs = Put(@, s, DictO(Put(d1.objs[s].v, "Contents", Ref(new))))], ResOk(0))
+                 THEN (IF c1.v[1].k # "ref" THEN Out(d, ResOk(0))
+                       ELSE IF inPlace(c1.v[1].n) THEN Out(ChangeStream(d, c1.v[1].n, b), ResOk(0)) ELSE fresh)
+                 ELSE fresh
        ELSE Out(d, ResOk(0))
 
 \* document.rs ---------------------------------------------------------------
@@ -734,8 +864,47 @@ ImplRenumber(d) ==
         d2  == ApplyRenaming(d1, f2)
     IN Out([d2 EXCEPT !.max_id = Len(ids)], ResOk(0))
 
-\* dispatch
-Impl(d, c, dev) ==
+\* parser_aux.rs -------------------------------------------------------------
+\* add_to_page_content: Content::encode, then add_page_contents
+ImplAddToPageContent(d, p, ops, dev) == ImplAddPageContents(d, p, EncodeM(ops), dev)
+
+\* the name for object number n: X<n>; as repaired the first X<m>, m >= n, the page cannot use yet
+InsertName(d, p, n, dev) ==
+    LET used == {t[2] : t \in {u \in ResTriples(d.objs, p) : u[1] = "XObject"}}
+        free == {m \in n..(n + 8) : XName(m).s \notin used}
+    IN IF dev.collide \/ free = {} THEN XName(n) ELSE XName(CHOOSE m \in free : \A k \in free : m <= k)
+
+\* insert_image: add_object; add_xobject?; decode the page's content?; push q cm Do Q; change_page_content
+\* (`?`: an error leaves here, with what was done so far)
+ImplInsertImage(d, p, strm, nums, dev, old) ==
+    LET a  == ImplAddObject(d, strm)
+        nm == InsertName(a.doc, p, a.res.id, dev)
+        x  == ImplAddRes(a.doc, p, "XObject", nm.s, a.res.id, TRUE, dev)
+    IN IF ~x.res.ok THEN Out(x.doc, ResErr)
+       ELSE IF old = Undec THEN Out(x.doc, ResErr)
+            ELSE ImplChangePageContent(x.doc, p, EncodeM(old \o <<TokSave, TokCm(nums), TokDo(nm.b), TokRestore>>), dev)
+
+\* insert_form_object: add_object; decode the page's content?; q old Q Do, encoded; add_xobject?; change_page_content
+ImplInsertFormObject(d, p, strm, dev, old) ==
+    LET a   == ImplAddObject(d, strm)
+        nm  == InsertName(a.doc, p, a.res.id, dev)
+    IN IF old = Undec THEN Out(a.doc, ResErr)
+       ELSE LET x == ImplAddRes(a.doc, p, "XObject", nm.s, a.res.id, TRUE, dev) IN
+            IF ~x.res.ok THEN Out(x.doc, ResErr)
+            ELSE ImplChangePageContent(x.doc, p, EncodeM(<<TokSave>> \o old \o <<TokRestore, TokDo(nm.b)>>), dev)
+
+\* what the model world observes of a document through decoding (O1 of Judge); c = the call just made
+ObserveM(pre, c, post, B, dev) ==
+    [ops |-> [q \in RangeOf(B.pp) |-> DecodeM(IF dev.boundary THEN PlainContent(post.objs, q) ELSE B.content[q])],
+     xn  |-> IF ~IsInsert(c) THEN NoName
+             ELSE LET ids  == {id \in DOMAIN post.objs \ DOMAIN pre.objs : post.objs[id] = c.o}
+                      names == {t[2] : t \in {u \in ResTriples(post.objs, c.id) :
+                                                  u[1] = "XObject" /\ \E id \in ids : u[3] = Ref(id)}}
+                      hits == {m \in 1..(post.max_id + 8) : XName(m).s \in names}
+                  IN IF hits = {} THEN NoName ELSE XName(CHOOSE m \in hits : \A k \in hits : m <= k)]
+
+\* dispatch; dec = page id -> the operation sequence the decoder reads from the page's current content
+Impl(d, c, dev, dec) ==
     CASE c.op = "NewObjectId"          -> ImplNewObjectId(d)
       [] c.op = "AddObject"            -> ImplAddObject(d, c.o)
       [] c.op = "Replace"              -> ImplReplace(d, c.id, c.o)
@@ -755,6 +924,9 @@ Impl(d, c, dev) ==
       [] c.op = "BuildOutline"         -> ImplBuildOutline(d)
       [] c.op = "Save"                 -> ImplSave(d, c.fmt)
       [] c.op = "SaveLoad"             -> ImplSaveLoad(d, c.fmt)
+      [] c.op = "AddToPageContent"     -> ImplAddToPageContent(d, c.id, c.ops, dev)
+      [] c.op = "InsertImage"          -> ImplInsertImage(d, c.id, c.o, c.nums, dev, IF c.id \in DOMAIN dec THEN dec[c.id] ELSE Undec)
+      [] c.op = "InsertFormObject"     -> ImplInsertFormObject(d, c.id, c.o, dev, IF c.id \in DOMAIN dec THEN dec[c.id] ELSE Undec)
 
 \* Preconditions of the calls inside the property's domain (caller errors are excluded); A = Aux(d):
 \*   every call     the document is sound so far (A.sound): no reachable reference to a missing
@@ -762,7 +934,7 @@ Impl(d, c, dev) ==
 \*                  already reported)
 \*   Replace        an existing or an issued id (set_object above max_id is a caller error) that is
 \*                  not a node of the page tree (the caller would own Counts and Parents) nor part
-\*                  of a page's Contents (content streams are not shared between pages)
+\*                  of a page's Contents (the caller would own the pages' content)
 \*   DeleteObject   not the catalog or a node of the page tree (pages are deleted by delete_pages)
 Pre(d, A, gh, c) ==
     /\ A.sound
